@@ -106,7 +106,7 @@ pub fn run(ctx: &Ctx) -> i32 {
         ctx.nontrivial(2);
         return ctx.finish("replay of one recorded tuple", &[], vec![]);
     }
-    let total: usize = ctx.args.pick(2_000_000, 100_000_000);
+    let total: usize = ctx.args.pick(10_000_000, 100_000_000);
     let chunk = 50_000;
     let accepted = std::sync::atomic::AtomicU64::new(0);
     let refused = std::sync::atomic::AtomicU64::new(0);
